@@ -65,8 +65,9 @@ def _convertCFF2ToCFF(cff, otFont):
     defaults = buildDefaults(privateDictOperators)
     order = buildOrder(privateDictOperators)
     for fd in fdArray:
+        privateDict = fd.Private  # load it while the FontDict still says CFF2
+        getattr(privateDict, "Subrs", None)
         fd.setCFF2(False)
-        privateDict = fd.Private
         privateDict.order = order
         for key in order:
             if key not in privateDict.rawDict and key in defaults:
